@@ -254,6 +254,8 @@ where
     A: Allocator,
 {
     pub fn with_capacity(capacity: usize, allocator: A) -> Result<Self, MapError> {
+        // find_ind masks with `capacity - 1`: the capacity must be a power of two, and at least 2
+        let capacity = pad_pot(capacity).max(2);
         unsafe {
             let (keys, values) = Self::alloc_storage(&allocator, capacity)?;
             let res = Self {
@@ -604,11 +606,6 @@ unsafe impl<T, A> Sync for HandleTable<T, A> where A: Allocator + Sync {}
 
 #[inline]
 fn pad_pot(cap: usize) -> usize {
-    let mut n = cap - 1; // to handle the case when cap is already POT
-    while (n & (n - 1)) != 0 {
-        n = n & (n - 1); // unset the rightmost bit
-    }
-
-    // return the next POT
-    n << 1
+    // the smallest power of two that is not below `cap` (1 for cap = 0)
+    cap.next_power_of_two()
 }
